@@ -7,7 +7,7 @@ the checks against them, always in a scratch git worktree of /repo (never in
 
     python3 tools/seeded.py confirm <dir>        # tests pass, demo fails with / passes without the patch
     python3 tools/seeded.py check <dir> [Cxx..]  # run quick checks against the patched tree
-    python3 tools/seeded.py matrix [thorough]    # every seeded/<id> against the check of its property
+    python3 tools/seeded.py matrix [thorough] [update] [-jN] [Cxx|-E ...]   # every seeded/<id> against the check of its property (update: rewrite meta.json verdicts)
 """
 
 import json
@@ -115,17 +115,38 @@ def check(d, props, tier="quick"):
     return res
 
 
-def matrix(tier="quick"):
-    rows = []
+def matrix(tier="quick", update=False, jobs=4, only=None):
+    from concurrent.futures import ThreadPoolExecutor
+
+    names = []
     for name in sorted(os.listdir(SEEDED)):
-        d = os.path.join(SEEDED, name)
-        meta_p = os.path.join(d, "meta.json")
-        if not os.path.exists(meta_p):
+        if only and not any(name.startswith(o) or name.endswith(o) for o in only):
             continue
-        meta = json.load(open(meta_p))
+        if os.path.exists(os.path.join(SEEDED, name, "meta.json")):
+            names.append(name)
+
+    def one(name):
+        d = os.path.join(SEEDED, name)
+        meta = json.load(open(os.path.join(d, "meta.json")))
         props = [meta["property"]] + [p for p in meta.get("also_check", [])]
-        res = check(d, props, tier)
-        rows.append((name, res))
+        return name, check(d, props, tier)
+
+    with ThreadPoolExecutor(jobs) as ex:
+        rows = list(ex.map(one, names))
+    if update and tier == "quick":
+        for name, res in rows:
+            if not res:
+                continue
+            mp = os.path.join(SEEDED, name, "meta.json")
+            meta = json.load(open(mp))
+            now = {p: {"verdict": v[0], "first_violation": v[1]} for p, v in res.items()}
+            before = meta.get("quick_check", {})
+            changed = {p: v["verdict"] for p, v in before.items()} != {p: v["verdict"] for p, v in now.items() if p in before} or set(now) != set(before)
+            if changed and "first_quick_check" not in meta:
+                meta["first_quick_check"] = before
+            meta["quick_check"] = now
+            with open(mp, "w") as fh:
+                json.dump(meta, fh, indent=1)
     missed = [n for n, r in rows if not any(v[0] == "CAUGHT" for v in r.values())]
     print("%d seeded changes, %d caught, not caught: %s" % (len(rows), len(rows) - len(missed), missed))
     return 1 if missed else 0
@@ -194,7 +215,10 @@ def main():
         check(d, props, tier)
         return
     if cmd == "matrix":
-        sys.exit(matrix("thorough" if "thorough" in sys.argv[2:] else "quick"))
+        rest = sys.argv[2:]
+        only = [a for a in rest if a not in ("thorough", "update") and not a.startswith("-j")]
+        jobs = [int(a[2:]) for a in rest if a.startswith("-j")]
+        sys.exit(matrix("thorough" if "thorough" in rest else "quick", update="update" in rest, jobs=jobs[0] if jobs else 4, only=only or None))
 
 
 if __name__ == "__main__":
